@@ -27,8 +27,14 @@ func runC08(c *run.Ctx) {
 	flagsOpen := ref.Flags{StaticAbstract: c.Open("K-C08-iface-static"), CondIdentity: c.Open("K-C08-cond-identity")}
 	for i := 0; i < n && !c.TooMany(); i++ {
 		r := c.Rand(i)
-		ec := newExecCase(r, gen.SchemaOpts{Abstract: true},
-			gen.DocOpts{Frags: true, Dirs: i%4 == 0, Vars: true, Aliases: true, Abstract: true, Depth: 2 + r.Intn(3)})
+		gopt := gen.GraphOpts{}
+		if i%3 == 1 {
+			// several applying fragments select the same key with different sub-selections (their contributions are merged),
+			// over data in which lists may begin with a null
+			gopt = gen.GraphOpts{NullProb: 20, TypedNil: 5}
+		}
+		ec := newExecCaseG(r, gen.SchemaOpts{Abstract: true},
+			gen.DocOpts{Frags: true, Dirs: i%4 == 0, Vars: true, Aliases: true, Abstract: true, Depth: 2 + r.Intn(3), DupKeys: i%3 == 1}, gopt)
 		if !back.ReflectFriendly(ec.S) {
 			continue
 		}
@@ -110,7 +116,7 @@ func runC08(c *run.Ctx) {
 			return
 		}
 		for k := 0; k < 1+i%3; k++ {
-			dc := gen.Doc(r, ms, gen.DocOpts{Frags: true, Aliases: true, Abstract: true, Depth: 2 + r.Intn(3), MaxOps: 1})
+			dc := gen.Doc(r, ms, gen.DocOpts{Frags: true, Aliases: true, Abstract: true, Depth: 2 + r.Intn(3), MaxOps: 1, DupKeys: (i+k)%2 == 0})
 			text := dc.Doc.Print(model.LayoutN(i + k))
 			exp := ref.Execute(ms, dc.Doc, dc.OpName, dc.Vars, g, nil, ref.Flags{})
 			out := &Outcome{}
